@@ -93,6 +93,13 @@ CHECKS.update({
         ref="DESIGN.md 4 C07"),
 })
 
+CHECKS.update({
+    "C13": dict(
+        text="LAYER A ONLY (use of the pool by writer.c and sorter.c): with the thread-pool API replaced by its documented contract (job then result callback, each exactly once, ordered for the writer, delivered at once / at the next pool call / only when the handler is joined), the pooled writer's file is judged well-formed with the same entries, offsets and counters by the independent decoder, the sorter yields the same folded output, every dispatched job is delivered exactly once and close/destroy return only after the handler was joined.",
+        note="The property's core quantifier -- all schedules of threadpool.c's mutex/condvar protocol, no hangs, bounded thread creation -- is NOT decided: CBMC 6.11 refuses the unit (unsound pointer handling under concurrency) and no other concurrency-capable solver-based engine is installed. This check only shows the callers are correct for any pool meeting the contract; mutants inside threadpool.c are out of its reach (DESIGN.md C13).",
+        ref="DESIGN.md 4 C13"),
+})
+
 NOT_APPLICABLE = {
     "C14": "needs an engine that explores/over-approximates all executions of pointer-sharing pthread code and decides happens-before; CBMC 6.11 stops on threadpool.c ('pointer handling for concurrency is unsound'), no other such engine is installed (DESIGN.md 4 C14)",
 }
